@@ -199,20 +199,23 @@ impl<V: Clone> CacheRing<V> {
 
         let key_hash = Self::hash_key(key);
 
+        // One critical section for the whole insertion. With the existence check, the slot choice
+        // and the insertion under separate locks, two concurrent puts could choose the same empty
+        // slot (one entry gone right after its put returned) or insert the same new key twice
+        // (an orphan slot that scans keep listing after a delete).
+        let mut slots = self.slots.write();
+        let mut index = self.index.write();
+
         // Check if key already exists and update in place
-        {
-            let existing_slot = self.index.read().get(&key_hash).copied();
-            if let Some(slot_idx) = existing_slot {
-                let mut slots = self.slots.write();
-                if let Some(ref mut entry) = slots[slot_idx] {
-                    if entry.key == key {
-                        entry.value = value;
-                        entry.last_access = Instant::now();
-                        entry.access_count += 1;
-                        entry.cost = cost;
-                        entry.size_bytes = size_bytes;
-                        return;
-                    }
+        if let Some(&slot_idx) = index.get(&key_hash) {
+            if let Some(ref mut entry) = slots[slot_idx] {
+                if entry.key == key {
+                    entry.value = value;
+                    entry.last_access = Instant::now();
+                    entry.access_count += 1;
+                    entry.cost = cost;
+                    entry.size_bytes = size_bytes;
+                    return;
                 }
             }
         }
@@ -221,13 +224,10 @@ impl<V: Clone> CacheRing<V> {
         crate::verif_hooks::yield_point("store.cache.put.checked");
 
         // Find a slot: either empty or evict lowest-scored
-        let slot_idx = self.find_slot_for_insert();
+        let slot_idx = Self::find_slot_for_insert(&slots, self.strategy);
 
         #[cfg(neumann_verif)]
         crate::verif_hooks::yield_point("store.cache.put.slot");
-
-        let mut slots = self.slots.write();
-        let mut index = self.index.write();
 
         // Remove old entry from index if slot was occupied
         if let Some(ref old_entry) = slots[slot_idx] {
@@ -252,9 +252,8 @@ impl<V: Clone> CacheRing<V> {
         drop(slots);
     }
 
-    fn find_slot_for_insert(&self) -> usize {
-        let slots = self.slots.read();
-        let scorer = EvictionScorer::new(self.strategy);
+    fn find_slot_for_insert(slots: &[Option<CacheEntry<V>>], strategy: EvictionStrategy) -> usize {
+        let scorer = EvictionScorer::new(strategy);
         let now = Instant::now();
 
         let mut best_slot = 0;
@@ -263,7 +262,6 @@ impl<V: Clone> CacheRing<V> {
         for (idx, slot) in slots.iter().enumerate() {
             match slot {
                 None => {
-                    drop(slots);
                     return idx; // Empty slot, use immediately
                 },
                 Some(entry) => {
@@ -277,7 +275,6 @@ impl<V: Clone> CacheRing<V> {
                 },
             }
         }
-        drop(slots);
 
         best_slot
     }
@@ -286,14 +283,18 @@ impl<V: Clone> CacheRing<V> {
     pub fn delete(&self, key: &str) -> bool {
         let key_hash = Self::hash_key(key);
 
-        let Some(slot_idx) = self.index.write().remove(&key_hash) else {
+        // Index entry and slot go together: a scan walks the slots, a get goes through the index
+        let mut slots = self.slots.write();
+        let mut index = self.index.write();
+
+        let Some(slot_idx) = index.remove(&key_hash) else {
             return false;
         };
+        drop(index);
 
         #[cfg(neumann_verif)]
         crate::verif_hooks::yield_point("store.cache.del.unindexed");
 
-        let mut slots = self.slots.write();
         if let Some(ref entry) = slots[slot_idx] {
             if entry.key == key {
                 slots[slot_idx] = None;
